@@ -633,6 +633,54 @@ fn shared_nesting_case(src: &mut Src, ctx: &mut Ctx) -> Result<(), String> {
     r.map_err(|e| format!("{} levels x {}: {}", levels, fan, e))
 }
 
+// ---- the largest records the format allows -------------------------------------------------------------------
+/// One stream per case whose one remarkable record is as long as a record can be (length field 0xFFFE, or the
+/// nearest length the record's element size allows), or two bytes shorter: names, strings and property values
+/// of 65530 / 65529 / 65528 bytes, point lists of 8191 / 8190 points. The reader accepts them, so the library
+/// it returns must be writable and read back equal.
+fn largest_case(src: &mut Src, ctx: &mut Ctx) -> Result<(), String> {
+    let i = src.u64() % 18;
+    let kind = i / 3;
+    let len = [65530usize, 65529, 65528][(i % 3) as usize];
+    let npts = [8191usize, 8190, 8189][(i % 3) as usize];
+    let d = [1i16; 12];
+    let c = MCommon::default();
+    let long = |n: usize| "n".repeat(n);
+    let xy = |n: usize| -> Vec<(i32, i32)> { (0..n as i32).map(|k| (k, k % 5)).collect() };
+    let mut m = MLib { name: "lib".into(), version: 3, dates: d, units: (1e-3f64.to_bits(), 1e-9f64.to_bits()), structs: vec![MStruct { name: "s".into(), dates: d, elems: vec![] }] };
+    let what = match kind {
+        0 => {
+            m.name = long(len);
+            format!("library name of {} bytes", len)
+        }
+        1 => {
+            m.structs[0].name = long(len);
+            format!("struct name of {} bytes", len)
+        }
+        2 => {
+            m.structs[0].elems.push(MElem::Sref { name: long(len), xy: (1, 2), strans: None, c: c.clone() });
+            format!("referenced name of {} bytes", len)
+        }
+        3 => {
+            m.structs[0].elems.push(MElem::Text { string: long(len), layer: 1, texttype: 2, xy: (3, 4), presentation: None, path_type: None, width: None, strans: None, c: c.clone() });
+            format!("text string of {} bytes", len)
+        }
+        4 => {
+            let mut cc = MCommon::default();
+            cc.props.push((7, long(len)));
+            m.structs[0].elems.push(MElem::Node { layer: 1, nodetype: 2, xy: vec![(0, 0)], c: cc });
+            format!("property value of {} bytes", len)
+        }
+        _ => {
+            m.structs[0].elems.push(MElem::Path { layer: 1, datatype: 2, xy: xy(npts), path_type: None, width: None, begin_extn: None, end_extn: None, c: c.clone() });
+            format!("path of {} points", npts)
+        }
+    };
+    ctx.label(&format!("largest records: {}", what));
+    ctx.nontrivial(hash_of(&i));
+    let enc = S::encode(&m, &S::EncOpts::default());
+    check_bytes(&enc.out, false, ctx).map_err(|e| format!("stream with a {}: {}", what, e))
+}
 fn run(run: &mut Run) {
     engine::journal::set_hang_ms(30_000);
     run.rule("Base streams: 30 generated valid streams (all element kinds, <= ~2 KB), one stream with a 32 KB XY record, 3 repository files. (i) every truncation point of every base; (ii) every single-record fault (6 length faults, empty payload, 64 record types, 8 data types, delete/duplicate/swap, 8 splices) at every record of the generated bases and every n-th record of the repository files; (ii-b) a well-formed record of each of the 64 record types x 15 payload shapes inserted at every record boundary of the generated bases; (ii-c) floods: each of those records repeated 100 000 times at library, structure and element level of two bases, read on a 2 MB stack; (iii) proptest-driven byte mutations and noise; extreme/unnormalised reals in UNITS; allocation scaling. Non-trivial = faulted stream differs from its base; distinct by hash of the bytes.");
@@ -651,6 +699,7 @@ fn run(run: &mut Run) {
     run.enumerate("alloc-scaling", run.tier.pick(2 * 5, 2 * 7), &scaling_case);
     run.enumerate("time-scaling", 5, &time_case);
     run.enumerate("shared-nesting", 48, &shared_nesting_case);
+    run.enumerate("largest-records", 18, &largest_case);
 }
 fn case(sub: &str) -> Option<Box<CaseFn<'static>>> {
     match sub {
@@ -674,6 +723,7 @@ fn case(sub: &str) -> Option<Box<CaseFn<'static>>> {
             }
             check_bytes(&bytes, false, ctx)
         })),
+        "largest-records" => Some(Box::new(largest_case)),
         _ => None,
     }
 }
